@@ -413,7 +413,8 @@ def run(rep):
                     else:
                         f = build_family(e2, fam, n, diamond=True)
                         size = dag_size(f)
-                        cc.start(3000 * size + 50000, cpu_s=60)
+                        cc.start(3000 * size + 50000,
+                                 cpu_s=20 if quick else 60)
                         try:
                             k, _ = P2[proc](f)
                         finally:
